@@ -1,7 +1,481 @@
-import Aiortc.Model.Sctp.Endpoint
-/-! # C01 (placeholder while the theorems are being written) -/
+import Aiortc.Lemmas.SctpFinal
+import Aiortc.Lemmas.SctpRefine
+/-!
+# C01 — reliable data channels deliver every message exactly once, intact, in order
+
+All theorems are about the executable models of `Model/Sctp/{Outbound,Inbound,Recv}.lean`
+(`_send`, `_mark_received`, `InboundStream.add_chunk / pop_messages`, `_receive_data_chunk`,
+`_data_channel_send / _data_channel_receive`), for ALL initial TSNs, message sequences and arrival
+lists.  The network is the adversary: the receiver is fed an ARBITRARY list of (message, fragment)
+pairs of chunks the sender produced — loss, duplication, reordering and delay in one quantifier, and
+since every statement holds for every list it holds at every observation instant (every prefix).
+
+Hypotheses beyond the property text (see `ASSUMPTIONS` in harness/props/C01.py):
+* `hN`  : fewer than 2^31 DATA chunks are sent during the association (any initial TSN, so the 32-bit
+          counter may wrap);  `markReceived_once` needs only the sliding window `Windowed`;
+* `SsnWin` : an ordered message arrives only while fewer than 2^15 messages separate it from the next
+          message its stream expects (implied by: no stream carries more than 2^15 ordered messages).
+-/
 namespace Aiortc.Props.C01
-open Aiortc.Sctp
-theorem flag_masks : Aiortc.Gen.SCTP_DATA_LAST_FRAG = 1 ∧ Aiortc.Gen.SCTP_DATA_FIRST_FRAG = 2 ∧
-    Aiortc.Gen.SCTP_DATA_UNORDERED = 4 := by decide
+open Aiortc.Sctp Aiortc.Gen
+
+/-! ## constants of the property text, tied to the regenerated ones -/
+
+theorem flag_masks : SCTP_DATA_LAST_FRAG = 1 ∧ SCTP_DATA_FIRST_FRAG = 2 ∧ SCTP_DATA_UNORDERED = 4 := by decide
+theorem userdata_max_const : USERDATA_MAX_LENGTH = 1200 ∧ USERDATA_MAX = 1200 := by decide
+theorem ppid_consts : WEBRTC_DCEP = 50 ∧ WEBRTC_STRING = 51 ∧ WEBRTC_BINARY = 53 ∧
+    WEBRTC_STRING_EMPTY = 56 ∧ WEBRTC_BINARY_EMPTY = 57 := by decide
+
+/-! ## (a) `_send`: fragmentation -/
+
+/-- The chunks `_send` creates for one message: fragment `i` carries TSN `tsn + i (mod 2^32)`, the same
+stream id / stream sequence number / PPID, and the `i`-th slice of at most 1200 bytes. -/
+theorem fragments_shape (tsn : Int) (sid : Nat) (ssn : Int) (ppid : Nat) (ordered : Bool)
+    (e r : Option Int) (data : Bytes) :
+    (fragments tsn sid ssn ppid ordered e r (fragCount data.length) data (fragCount data.length)).map SChunk.toR
+      = (List.range (fragCount data.length)).map fun (i : Nat) =>
+          ({ tsn := (tsn + (i : Int)) % 4294967296, sid := sid, ssn := ssn, ppid := ppid,
+             flags := fragFlags ordered (fragCount data.length) i,
+             data := (data.drop (i * 1200)).take 1200 } : RChunk) := by
+  rw [fragments_toR _ _ _ _ _ _ _ _ _ _ (Nat.le_refl _), Nat.sub_self, ← List.range_eq_range']
+  apply List.map_congr_left
+  intro i _
+  simp only [fragAt, USERDATA_MAX_eq]
+
+/-- Exactly the first fragment carries B, exactly the last carries E, U iff the message is unordered. -/
+theorem fragments_flags (ordered : Bool) (n i : Nat) :
+    flagB (fragFlags ordered n i) = decide (i = 0) ∧ flagE (fragFlags ordered n i) = decide (i = n - 1)
+      ∧ flagU (fragFlags ordered n i) = !ordered :=
+  ⟨flagB_fragFlags _ _ _, flagE_fragFlags _ _ _, flagU_fragFlags _ _ _⟩
+
+/-- The concatenation of the fragments' payloads is the message. -/
+theorem fragments_join (tsn : Int) (sid : Nat) (ssn : Int) (ppid : Nat) (ordered : Bool)
+    (e r : Option Int) (data : Bytes) :
+    ((fragments tsn sid ssn ppid ordered e r (fragCount data.length) data (fragCount data.length)).map
+      SChunk.toR).flatMap (·.data) = data := by
+  rw [fragments_toR _ _ _ _ _ _ _ _ _ _ (Nat.le_refl _), Nat.sub_self, ← List.range_eq_range']
+  exact fragAt_join _ _ _ _ _ _
+
+/-- Every fragment carries at most 1200 bytes; a non-empty message has at least one fragment. -/
+theorem fragments_size (tsn : Int) (sid : Nat) (ssn : Int) (ppid : Nat) (ordered : Bool)
+    (e r : Option Int) (data : Bytes) :
+    (∀ c ∈ (fragments tsn sid ssn ppid ordered e r (fragCount data.length) data (fragCount data.length)).map
+        SChunk.toR, c.data.length ≤ 1200)
+    ∧ (data ≠ [] → 1 ≤ fragCount data.length) := by
+  constructor
+  · rw [fragments_shape]
+    intro c hc
+    obtain ⟨i, _, rfl⟩ := List.mem_map.1 hc
+    simp only [List.length_take]; omega
+  · intro h
+    have : 0 < data.length := List.length_pos_iff.2 h
+    unfold fragCount; rw [USERDATA_MAX_eq]; omega
+
+/-- `_send` advances the local TSN by the number of fragments (mod 2^32), appends exactly the fragments,
+and bumps the stream sequence number of an ordered message (mod 2^16). -/
+theorem enqueue_counters (t : Tx) (sid ppid : Nat) (data : Bytes) (e r : Option Int) (ordered : Bool) :
+    (t.enqueue sid ppid data e r ordered).localTsn = (t.localTsn + fragCount data.length) % 4294967296
+    ∧ (t.enqueue sid ppid data e r ordered).outQ
+        = t.outQ ++ fragments t.localTsn sid (if ordered then (dictGet t.streamSeq sid).getD 0 else 0) ppid ordered
+            e r (fragCount data.length) data (fragCount data.length)
+    ∧ (ordered = true → dictGet (t.enqueue sid ppid data e r ordered).streamSeq sid
+        = some (uint16_add ((dictGet t.streamSeq sid).getD 0) 1)) := by
+  refine ⟨rfl, rfl, ?_⟩
+  intro ho
+  simp only [Tx.enqueue, ho, if_true]
+  exact dictGet_dictSet_same _ _ _
+
+/-- A whole sequence of `_send` calls on a fresh association (initial TSN `t0`): the chunks appended to the
+outbound queue are, in order, the fragments `fragOf t0 ms j i`; fragment `i` of message `j` has TSN
+`t0 + (number of fragments of earlier messages) + i (mod 2^32)`, and an ordered message carries the number
+of earlier ordered messages of its stream (mod 2^16) as stream sequence number. -/
+theorem sendAll_wire (t0 : Int) (ht0 : 0 ≤ t0 ∧ t0 < 4294967296) (t : Tx) (h1 : t.localTsn = t0)
+    (h2 : t.streamSeq = []) (h3 : t.outQ = []) (ms : List SMsg) :
+    (t.sendAll ms).outQ.map SChunk.toR = allFrags t0 ms
+    ∧ (∀ c, c ∈ allFrags t0 ms ↔ ∃ p, ValidFrag ms p ∧ c = F t0 ms p)
+    ∧ (∀ j i, (fragOf t0 ms j i).tsn = (t0 + ((startOf ms j + i : Nat) : Int)) % 4294967296)
+    ∧ (∀ j i, (fragOf t0 ms j i).ssn
+        = if (msgAt ms j).ordered then ((ordBefore ms j (msgAt ms j).sid : Nat) : Int) % 65536 else 0) :=
+  ⟨sendAll_spec t0 ht0 t h1 h2 h3 ms, mem_allFrags t0 ms, fun j i => fragOf_tsn t0 ms j i, fun _ _ => rfl⟩
+
+example : (Ep.init false 7 4294967295).tx.localTsn = 4294967295 ∧ (Ep.init false 7 4294967295).tx.streamSeq = []
+    ∧ (Ep.init false 7 4294967295).tx.outQ = [] := by decide
+
+/-! ## (b) `_mark_received`: every TSN is accepted exactly once -/
+
+/-- The invariant "accepted = {index ≤ cumulative} ∪ misordered" and the verdict of one call: under the
+sliding-window hypothesis `_mark_received` reports a duplicate iff the index arrived before. -/
+theorem markReceived_invariant (t0 : Int) (ks : List Nat) (r : Rx) (k : Nat)
+    (hinv : RxInv t0 ks r) (hwin : ∀ n, IsCum ks n → InWindow n k) :
+    (markReceived r (tsnN t0 k)).1 = decide (k ∈ ks) ∧ RxInv t0 (ks ++ [k]) (markReceived r (tsnN t0 k)).2 :=
+  markReceived_spec t0 ks r k hinv hwin
+
+/-- Over ANY arrival list of sender indices inside the sliding window (fewer than 2^31 TSNs between the
+first missing one and the arriving one), whatever the initial TSN: the `i`-th call returns "duplicate"
+iff that index occurred earlier in the list — so each TSN is accepted exactly once, at its first arrival. -/
+theorem markReceived_once (t0 : Int) (ks : List Nat) (hw : Windowed [] ks) :
+    (markAll { last := tsn_minus_one t0, mis := [], dups := [] } (ks.map (tsnN t0))).1 = seenFlags [] ks :=
+  (markAll_spec t0 ks [] _ (RxInv.init t0 []) hw).1
+
+/-- The accepted indices are duplicate-free and are exactly the indices that arrived. -/
+theorem accepted_exactly_once (ks : List Nat) :
+    (acceptedOf [] ks).Nodup ∧ ∀ k, k ∈ acceptedOf [] ks ↔ k ∈ ks := by
+  obtain ⟨h1, h2⟩ := acceptedOf_spec ks []
+  exact ⟨h1, fun k => by rw [h2 k]; simp⟩
+
+/-- non-vacuity: an arrival list with reordering and duplicates satisfies the window hypothesis; with initial
+TSN 2^32-1 the TSNs wrap inside it. -/
+example : Windowed [] [2, 0, 1, 1, 5, 0, 3] := Windowed_of_small _ _ (by decide)
+example : (markAll { last := tsn_minus_one 4294967295, mis := [], dups := [] }
+    ([2, 0, 1, 1, 5, 0, 3].map (tsnN 4294967295))).1 = [false, false, false, true, false, true, false] := by decide
+
+/-! ## (c) `InboundStream.add_chunk` / `pop_messages` -/
+
+/-- `pop_messages` never hangs (the fuel `2·len + 2` of the model is never exhausted) and every yielded
+message is a `PopStep`: the queue is `pre ++ run ++ post`, `run` starts with a B chunk, its TSNs are
+consecutive, only its last chunk carries E, the message is the concatenation of `run`'s payloads with the
+last chunk's stream id and PPID, and afterwards the queue is `pre ++ post`. -/
+theorem pop_sound (s : InStream) :
+    ∃ out s', s.popMessages = .ok (out, s') ∧ PopSteps s.reasm s.seq out s'.reasm s'.seq :=
+  popMessages_ok s
+
+theorem pop_never_hangs (s : InStream) : s.popMessages ≠ .hang := by
+  obtain ⟨out, s', h, _⟩ := popMessages_ok s
+  rw [h]; intro e; cases e
+
+/-- What a `PopStep` is, spelled out. -/
+theorem popStep_spelled {reasm : List RChunk} {seq : Int} {m : Msg} {reasm' : List RChunk} {seq' : Int}
+    (h : PopStep reasm seq m reasm' seq') :
+    ∃ (pre run post : List RChunk) (hd lst : RChunk),
+      reasm = pre ++ run ++ post ∧ reasm' = pre ++ post ∧ run.head? = some hd ∧ run.getLast? = some lst
+      ∧ flagB hd.flags = true ∧ Linked run ∧ flagE lst.flags = true
+      ∧ m = { sid := lst.sid, ppid := lst.ppid, data := run.flatMap (·.data) } := by
+  obtain ⟨pre, run, post, hd, lst, h1, h2, h3, h4, h5, h6, h7, _, h9, _⟩ := h
+  exact ⟨pre, run, post, hd, lst, h1, h2, h3, h4, h5, h6, h7, h9⟩
+
+/-- `add_chunk` of a chunk whose TSN is not queued never raises the `AssertionError`, and keeps the queue
+duplicate-free. -/
+theorem addChunk_no_assert (s : InStream) (c : RChunk) (h : ∀ r ∈ s.reasm, r.tsn ≠ c.tsn) :
+    ∃ s1, s.addChunk c = .ok s1 ∧ s1.seq = s.seq ∧ (∀ x, x ∈ s1.reasm → x = c ∨ x ∈ s.reasm)
+      ∧ (s.reasm.Nodup → c ∉ s.reasm → s1.reasm.Nodup) :=
+  addChunk_spec s c h
+
+/-- Inside a window of fewer than 2^31 TSNs `add_chunk` keeps the queue sorted in serial TSN order (strictly
+increasing sender indices `J`, for any initial TSN) and inserts the chunk exactly once. -/
+theorem addChunk_keeps_sorted (t0 : Int) (s : InStream) (c : RChunk) (J : List Nat) (k : Nat)
+    (hJ : J.Pairwise (· < ·)) (hmap : s.reasm.map (·.tsn) = J.map (tsnN t0)) (hk : k ∉ J)
+    (hc : c.tsn = tsnN t0 k)
+    (hw : ∀ x ∈ J, (x : Int) - k < 2147483648 ∧ (k : Int) - x < 2147483648) :
+    ∃ s1, s.addChunk c = .ok s1 ∧ s1.seq = s.seq ∧ s1.reasm.map (·.tsn) = (insNat k J).map (tsnN t0)
+      ∧ (insNat k J).Pairwise (· < ·) ∧ s1.reasm.Perm (c :: s.reasm) :=
+  addChunk_sorted t0 s c J k hJ hmap hk hc hw
+
+/-! ## (d) end to end -/
+
+/-- Any list of chunks taken from the sender's output is the image of a list of valid (message, fragment)
+pairs: quantifying over such pair lists is quantifying over all loss / duplication / reordering / delay
+patterns of the sender's DATA chunks. -/
+theorem arrivals_wlog (t0 : Int) (ms : List SMsg) (cs : List RChunk) (h : ∀ c ∈ cs, c ∈ allFrags t0 ms) :
+    ∃ ps : List (Nat × Nat), (∀ q ∈ ps, ValidFrag ms q) ∧ cs = ps.map (F t0 ms) :=
+  arrivals_are_frags t0 ms cs h
+
+/-- The receiver never raises and never hangs on sender-produced chunks, and reaches the invariant. -/
+theorem C01_receiver_total (t0 : Int) (ms : List SMsg) (hN : (allFrags t0 ms).length < 2147483648)
+    (arr : List (Nat × Nat)) (hv : ∀ q ∈ arr, ValidFrag ms q) (hw : SsnWin t0 ms arr) :
+    ∃ r out, Recv.run (Recv.init t0) (arr.map (F t0 ms)) = .ok (r, out) ∧ Inv t0 ms arr r out :=
+  run_inv t0 ms (by rw [← allFrags_length t0 ms]; exact hN) arr hv hw
+
+/-- Exactly once, intact (all streams, ordered or not): the messages handed to `_receive` are the images of
+a DUPLICATE-FREE list of indices of sent messages — each delivery is a sent message with its exact stream
+id, PPID and payload, and no sent message is delivered twice. -/
+theorem C01_unordered (t0 : Int) (ms : List SMsg) (hN : (allFrags t0 ms).length < 2147483648)
+    (arr : List (Nat × Nat)) (hv : ∀ q ∈ arr, ValidFrag ms q) (hw : SsnWin t0 ms arr)
+    (r : Recv) (out : List Msg) (hrun : Recv.run (Recv.init t0) (arr.map (F t0 ms)) = .ok (r, out)) :
+    ∃ dl : List Nat, dl.Nodup ∧ (∀ j ∈ dl, j < ms.length) ∧ out = dl.map (fun j => (msgAt ms j).toMsg)
+      ∧ (∀ j ∈ dl, ∀ i, i < nfr (msgAt ms j) → (j, i) ∈ arr) := by
+  obtain ⟨r', out', hrun', hinv⟩ := C01_receiver_total t0 ms hN arr hv hw
+  rw [hrun] at hrun'
+  simp only [Outcome.ok.injEq, Prod.mk.injEq] at hrun'
+  obtain ⟨rfl, rfl⟩ := hrun'
+  obtain ⟨_, dl, hg, _, _⟩ := hinv
+  exact ⟨dl, hg.nodup, hg.lt, hg.out_eq, hg.arrived⟩
+
+/-- … hence the deliveries are a sub-multiset of the sends. -/
+theorem C01_unordered_count (t0 : Int) (ms : List SMsg) (hN : (allFrags t0 ms).length < 2147483648)
+    (arr : List (Nat × Nat)) (hv : ∀ q ∈ arr, ValidFrag ms q) (hw : SsnWin t0 ms arr)
+    (r : Recv) (out : List Msg) (hrun : Recv.run (Recv.init t0) (arr.map (F t0 ms)) = .ok (r, out))
+    (m : Msg) : out.count m ≤ (ms.map SMsg.toMsg).count m := by
+  obtain ⟨dl, hnd, hlt, hout, _⟩ := C01_unordered t0 ms hN arr hv hw r out hrun
+  have := count_map_le_range (fun j => (msgAt ms j).toMsg) m ms.length dl hnd hlt
+  rw [hout]
+  have e : (List.range ms.length).map (fun j => (msgAt ms j).toMsg) = ms.map SMsg.toMsg := by
+    conv => rhs; rw [← map_msgAt_range ms]
+    rw [List.map_map]; rfl
+  rw [e] at this; exact this
+
+/-- No cross-talk: whatever is delivered was sent, on the stream it is delivered on, with the same PPID and
+payload. -/
+theorem C01_no_crosstalk (t0 : Int) (ms : List SMsg) (hN : (allFrags t0 ms).length < 2147483648)
+    (arr : List (Nat × Nat)) (hv : ∀ q ∈ arr, ValidFrag ms q) (hw : SsnWin t0 ms arr)
+    (r : Recv) (out : List Msg) (hrun : Recv.run (Recv.init t0) (arr.map (F t0 ms)) = .ok (r, out)) :
+    ∀ m ∈ out, ∃ sm ∈ ms, sm.sid = m.sid ∧ sm.ppid = m.ppid ∧ sm.data = m.data := by
+  obtain ⟨dl, _, hlt, hout, _⟩ := C01_unordered t0 ms hN arr hv hw r out hrun
+  intro m hm
+  rw [hout] at hm
+  obtain ⟨j, hj, rfl⟩ := List.mem_map.1 hm
+  exact ⟨msgAt ms j, msgAt_mem ms j (hlt j hj), rfl, rfl, rfl⟩
+
+/-- Ordered channels: on a stream all of whose messages are ordered, the deliveries are — at every instant,
+i.e. for every arrival list — a PREFIX of the messages sent on that stream (value and PPID included). -/
+theorem C01_ordered (t0 : Int) (ms : List SMsg) (hN : (allFrags t0 ms).length < 2147483648)
+    (arr : List (Nat × Nat)) (hv : ∀ q ∈ arr, ValidFrag ms q) (hw : SsnWin t0 ms arr)
+    (r : Recv) (out : List Msg) (hrun : Recv.run (Recv.init t0) (arr.map (F t0 ms)) = .ok (r, out))
+    (s : Nat) (ho : OrdOnly ms s) :
+    out.filter (fun m => m.sid == s) <+: sentOn ms s := by
+  obtain ⟨r', out', hrun', hinv⟩ := C01_receiver_total t0 ms hN arr hv hw
+  rw [hrun] at hrun'
+  simp only [Outcome.ok.injEq, Prod.mk.injEq] at hrun'
+  obtain ⟨rfl, rfl⟩ := hrun'
+  obtain ⟨_, dl, _, _, hO⟩ := hinv
+  obtain ⟨d, _, _, hfil, _⟩ := hO s ho
+  rw [hfil]; exact List.take_prefix _ _
+
+/-- "At every instant": what the application has seen after any prefix `pre` of the arrivals is a prefix `o1`
+of what it sees in the end (deliveries are never retracted or reordered), and `o1` itself satisfies the
+ordered / exactly-once statements (the theorems above hold for every arrival list, hence for `pre`). -/
+theorem C01_every_instant (t0 : Int) (ms : List SMsg) (hN : (allFrags t0 ms).length < 2147483648)
+    (arr : List (Nat × Nat)) (hv : ∀ q ∈ arr, ValidFrag ms q) (hw : SsnWin t0 ms arr)
+    (r : Recv) (out : List Msg) (hrun : Recv.run (Recv.init t0) (arr.map (F t0 ms)) = .ok (r, out))
+    (pre : List (Nat × Nat)) (hpre : pre <+: arr) :
+    ∃ r1 o1, Recv.run (Recv.init t0) (pre.map (F t0 ms)) = .ok (r1, o1) ∧ o1 <+: out
+      ∧ (∀ s, OrdOnly ms s → o1.filter (fun m => m.sid == s) <+: sentOn ms s)
+      ∧ (∀ m, o1.count m ≤ (ms.map SMsg.toMsg).count m) := by
+  obtain ⟨suf, hsuf⟩ := hpre
+  have hvp : ∀ q ∈ pre, ValidFrag ms q := fun q hq => hv q (by rw [← hsuf]; exact List.mem_append_left _ hq)
+  have hwp : SsnWin t0 ms pre := hw.prefix ⟨suf, hsuf⟩
+  rw [← hsuf, List.map_append] at hrun
+  obtain ⟨r1, o1, o2, h1, _, h3⟩ := Recv.run_append_inv _ _ _ _ _ hrun
+  exact ⟨r1, o1, h1, ⟨o2, h3.symm⟩, fun s ho => C01_ordered t0 ms hN pre hvp hwp r1 o1 h1 s ho,
+    fun m => C01_unordered_count t0 ms hN pre hvp hwp r1 o1 h1 m⟩
+
+/-! ### full-strength statements (sliding TSN window) and how the proved ones relate to them
+
+DESIGN.md asks for the end-to-end statements under a *sliding* window: fewer than 2^31 TSNs between the receiver's
+cumulative TSN / the chunks it still holds and any arriving chunk (`TsnWin`), so that an association may send any
+number of chunks.  `C01_ordered`, `C01_unordered`, … above are these statements with `TsnWin` replaced by the
+stronger `(allFrags t0 ms).length < 2^31` (`TsnWin_of_few`); they are the `_partial` versions.  The gap: to keep every
+queued chunk within the window of later arrivals one needs that `pop_messages` delivers every complete deliverable
+message (a completeness statement of C02's kind), which is not proved here. -/
+
+/-- Full-strength ordered statement (NOT proved; `C01_ordered` is its restriction to `< 2^31` chunks). -/
+def C01_ordered_sliding : Prop :=
+  ∀ (t0 : Int) (ms : List SMsg) (arr : List (Nat × Nat)), (∀ q ∈ arr, ValidFrag ms q) →
+    TsnWin t0 ms arr → SsnWin t0 ms arr →
+    ∃ r out, Recv.run (Recv.init t0) (arr.map (F t0 ms)) = .ok (r, out) ∧
+      ∀ s, OrdOnly ms s → out.filter (fun m => m.sid == s) <+: sentOn ms s
+
+/-- Full-strength exactly-once statement (NOT proved; `C01_unordered` is its restriction to `< 2^31` chunks). -/
+def C01_unordered_sliding : Prop :=
+  ∀ (t0 : Int) (ms : List SMsg) (arr : List (Nat × Nat)), (∀ q ∈ arr, ValidFrag ms q) →
+    TsnWin t0 ms arr → SsnWin t0 ms arr →
+    ∃ r out, Recv.run (Recv.init t0) (arr.map (F t0 ms)) = .ok (r, out) ∧
+      ∃ dl : List Nat, dl.Nodup ∧ (∀ j ∈ dl, j < ms.length) ∧ out = dl.map (fun j => (msgAt ms j).toMsg)
+
+/-- What is proved of `C01_ordered_sliding`: its body for every association with fewer than 2^31 chunks (for
+which `TsnWin` holds automatically, `TsnWin_of_few`). -/
+theorem C01_ordered_partial (t0 : Int) (ms : List SMsg) (hN : (allFrags t0 ms).length < 2147483648)
+    (arr : List (Nat × Nat)) (hv : ∀ q ∈ arr, ValidFrag ms q) (hw : SsnWin t0 ms arr) :
+    TsnWin t0 ms arr ∧
+    ∃ r out, Recv.run (Recv.init t0) (arr.map (F t0 ms)) = .ok (r, out) ∧
+      ∀ s, OrdOnly ms s → out.filter (fun m => m.sid == s) <+: sentOn ms s := by
+  refine ⟨TsnWin_of_few t0 ms (by rw [← allFrags_length t0 ms]; exact hN) arr hv, ?_⟩
+  obtain ⟨r, out, hrun, _⟩ := C01_receiver_total t0 ms hN arr hv hw
+  exact ⟨r, out, hrun, fun s ho => C01_ordered t0 ms hN arr hv hw r out hrun s ho⟩
+
+theorem C01_unordered_partial (t0 : Int) (ms : List SMsg) (hN : (allFrags t0 ms).length < 2147483648)
+    (arr : List (Nat × Nat)) (hv : ∀ q ∈ arr, ValidFrag ms q) (hw : SsnWin t0 ms arr) :
+    TsnWin t0 ms arr ∧
+    ∃ r out, Recv.run (Recv.init t0) (arr.map (F t0 ms)) = .ok (r, out) ∧
+      ∃ dl : List Nat, dl.Nodup ∧ (∀ j ∈ dl, j < ms.length) ∧ out = dl.map (fun j => (msgAt ms j).toMsg) := by
+  refine ⟨TsnWin_of_few t0 ms (by rw [← allFrags_length t0 ms]; exact hN) arr hv, ?_⟩
+  obtain ⟨r, out, hrun, _⟩ := C01_receiver_total t0 ms hN arr hv hw
+  obtain ⟨dl, h1, h2, h3, _⟩ := C01_unordered t0 ms hN arr hv hw r out hrun
+  exact ⟨r, out, hrun, dl, h1, h2, h3⟩
+
+/-- Chunk-level corollary with plain hypotheses: fresh sender with initial TSN `t0`, messages `ms`, fewer
+than 2^31 chunks in total and at most 2^15 ordered messages per stream; `cs` is ANY list of chunks from the
+sender's outbound queue.  Then the receiver accepts `cs` without exception and all four conclusions hold. -/
+theorem C01_chunks (t0 : Int) (ht0 : 0 ≤ t0 ∧ t0 < 4294967296) (t : Tx) (h1 : t.localTsn = t0)
+    (h2 : t.streamSeq = []) (h3 : t.outQ = []) (ms : List SMsg)
+    (hN : (t.sendAll ms).outQ.length < 2147483648) (hfew : ∀ s, ordBefore ms ms.length s ≤ 32768)
+    (cs : List RChunk) (hcs : ∀ c ∈ cs, c ∈ (t.sendAll ms).outQ.map SChunk.toR) :
+    ∃ r out, Recv.run (Recv.init t0) cs = .ok (r, out)
+      ∧ (∀ s, OrdOnly ms s → out.filter (fun m => m.sid == s) <+: sentOn ms s)
+      ∧ (∀ m, out.count m ≤ (ms.map SMsg.toMsg).count m)
+      ∧ (∀ m ∈ out, ∃ sm ∈ ms, sm.sid = m.sid ∧ sm.ppid = m.ppid ∧ sm.data = m.data) := by
+  have hwire := sendAll_spec t0 ht0 t h1 h2 h3 ms
+  have hN' : (allFrags t0 ms).length < 2147483648 := by
+    rw [← hwire, List.length_map]; exact hN
+  rw [hwire] at hcs
+  obtain ⟨ps, hv, rfl⟩ := arrivals_are_frags t0 ms cs hcs
+  have hw := SsnWin_of_few t0 ms hfew ps hv
+  obtain ⟨r, out, hrun, _⟩ := C01_receiver_total t0 ms hN' ps hv hw
+  exact ⟨r, out, hrun, fun s ho => C01_ordered t0 ms hN' ps hv hw r out hrun s ho,
+    fun m => C01_unordered_count t0 ms hN' ps hv hw r out hrun m,
+    C01_no_crosstalk t0 ms hN' ps hv hw r out hrun⟩
+
+/-! ### non-vacuity: a concrete association at the TSN wrap point -/
+
+/-- two streams: stream 1 ordered (a 3-fragment string then a 1-byte binary), stream 2 unordered -/
+def bigPayload : Bytes := List.replicate 2500 65
+theorem bigPayload_len : bigPayload.length = 2500 := List.length_replicate
+
+def demoMsgs : List SMsg :=
+  [ { sid := 1, ppid := 51, data := bigPayload, ordered := true },
+    { sid := 2, ppid := 53, data := [9, 9], ordered := false },
+    { sid := 1, ppid := 53, data := [7], ordered := true } ]
+
+/-- arrival order with loss of nothing, a duplicate and heavy reordering: (message, fragment) -/
+def demoArr : List (Nat × Nat) := [(2, 0), (0, 2), (1, 0), (0, 0), (0, 2), (0, 1), (1, 0)]
+
+theorem demo_valid : ∀ q ∈ demoArr, ValidFrag demoMsgs q := by
+  intro q hq
+  simp only [demoArr, List.mem_cons, List.mem_nil_iff, or_false] at hq
+  rcases hq with rfl | rfl | rfl | rfl | rfl | rfl | rfl <;>
+    simp [ValidFrag, msgAt, demoMsgs, nfr, fragCount, USERDATA_MAX_eq, bigPayload_len]
+
+example : (allFrags 4294967295 demoMsgs).length < 2147483648 ∧ (∀ q ∈ demoArr, ValidFrag demoMsgs q)
+    ∧ OrdOnly demoMsgs 1 := by
+  refine ⟨?_, demo_valid, ?_⟩
+  · rw [allFrags_length]; simp [startOf, demoMsgs, nfr, fragCount, USERDATA_MAX_eq, bigPayload_len]
+  · intro m hm hs
+    simp only [demoMsgs, List.mem_cons, List.mem_nil_iff, or_false] at hm
+    rcases hm with rfl | rfl | rfl <;> simp_all
+
+example : SsnWin 4294967295 demoMsgs demoArr :=
+  SsnWin_of_few _ _ (by
+    intro s
+    unfold ordBefore
+    have h : ((demoMsgs.take demoMsgs.length).filter fun m => m.ordered && m.sid == s).length ≤ demoMsgs.length :=
+      Nat.le_trans (List.length_filter_le _ _) (List.length_take_le _ _)
+    have : demoMsgs.length = 3 := rfl
+    omega) _ demo_valid
+
+/-- The receiver really delivers (the safety theorems are not vacuous): initial TSN 2^32-1, an ordered
+two-fragment message (TSNs 2^32-1, 0) and an ordered one-fragment message (TSN 1) on stream 1, an unordered
+message (TSN 2) on stream 2; arrival order 2, 1, 0, 0 (dup), 2^32-1: everything is delivered exactly once,
+stream 1 in sending order although its second message arrived first. -/
+example :
+    (match Recv.run (Recv.init 4294967295)
+        [ { tsn := 2, sid := 2, ssn := 0, ppid := 53, flags := 7, data := [9] },
+          { tsn := 1, sid := 1, ssn := 1, ppid := 53, flags := 3, data := [7] },
+          { tsn := 0, sid := 1, ssn := 0, ppid := 51, flags := 1, data := [66] },
+          { tsn := 0, sid := 1, ssn := 0, ppid := 51, flags := 1, data := [66] },
+          { tsn := 4294967295, sid := 1, ssn := 0, ppid := 51, flags := 2, data := [65] } ] with
+      | .ok (_, out) => out
+      | _ => []) =
+    [ { sid := 2, ppid := 53, data := [9] }, { sid := 1, ppid := 51, data := [65, 66] },
+      { sid := 1, ppid := 53, data := [7] } ] := by decide
+
+/-! ### link to the endpoint automaton that the trace correspondence validates -/
+
+/-- The pure receiver step IS what `receiveData` (`_receive_data_chunk` inside the whole-endpoint automaton of
+`Model/Sctp/Endpoint.lean`) computes: on an endpoint whose receive fields are `(rx, inStreams)`, whenever
+`Recv.step` returns `ok (r', msgs)` the handler continues with `deliver msgs` (= `_receive` for each message, in
+order) on a state whose receive fields are `r'`. -/
+theorem endpoint_receive_refines (c : RChunk) (e : Ep) (l : List Out) (rx : Rx) (r' : Recv) (msgs : List Msg)
+    (hrx : e.rx = some rx) (hstep : Recv.step { rx := rx, streams := e.inStreams } c = .ok (r', msgs)) :
+    ∃ e', (receiveData c).run.run (e, l) = (deliver msgs).run.run (e', l)
+      ∧ e'.rx = some r'.rx ∧ e'.inStreams = r'.streams :=
+  receiveData_refines c e l rx r' msgs hrx hstep
+
+/-- `dcReceive` (`_data_channel_receive` in the endpoint automaton) on a user message: the state is unchanged and
+the only possible output is ONE `message` event, on the channel registered for that stream id, with the value and
+type given by `decodeUser`. -/
+theorem endpoint_dcReceive_user (sid ppid : Nat) (data : Bytes) (e : Ep) (l : List Out)
+    (h : (ppid = WEBRTC_DCEP && !data.isEmpty) = false) :
+    ∃ res evs, (dcReceive sid ppid data).run.run (e, l) = (res, (e, l ++ evs))
+      ∧ ∀ ev ∈ evs, ∃ i b d, ev = Out.evMessage i b d ∧ decodeUser ppid data = some (b, d)
+          ∧ dictGet e.dataChannels sid = some i :=
+  dcReceive_user sid ppid data e l h
+
+/-! ## (e) PPID mapping of the data-channel layer -/
+
+/-- `send(x)` then `_data_channel_receive`: the `message` event carries exactly the value and the type
+(str / bytes) that was sent, including the empty string and empty bytes; `data` of a `str` is its UTF-8
+encoding, which is always valid UTF-8. -/
+theorem ppid_roundtrip (isStr : Bool) (data : Bytes) (h : isStr = true → utf8Valid data = true) :
+    decodeUser (encodeUser isStr data).1 (encodeUser isStr data).2 = some (isStr, data) := by
+  unfold encodeUser decodeUser
+  simp only [WEBRTC_DCEP, WEBRTC_STRING, WEBRTC_BINARY, WEBRTC_STRING_EMPTY, WEBRTC_BINARY_EMPTY]
+  cases isStr <;> cases data with
+  | nil => simp
+  | cons a t => simp_all
+
+/-- The payload handed to `_send` is never empty, so every channel message has at least one fragment. -/
+theorem encodeUser_nonempty (isStr : Bool) (data : Bytes) :
+    (encodeUser isStr data).2 ≠ [] ∧ 1 ≤ fragCount (encodeUser isStr data).2.length := by
+  have h : (encodeUser isStr data).2 ≠ [] := by
+    unfold encodeUser
+    cases data with
+    | nil => simp
+    | cons a t => simp
+  refine ⟨h, ?_⟩
+  have : 0 < (encodeUser isStr data).2.length := List.length_pos_iff.2 h
+  unfold fragCount; rw [USERDATA_MAX_eq]; omega
+
+/-- DCEP control messages are never delivered as user messages; a non-user PPID delivers nothing. -/
+theorem decodeUser_dcep (data : Bytes) (h : data ≠ []) : decodeUser 50 data = none := by
+  unfold decodeUser
+  cases data with
+  | nil => exact absurd rfl h
+  | cons a t => simp [WEBRTC_DCEP]
+
+/-- The `_send` call `channel.send(value)` results in, on stream `s` (`v = (is str, payload)`). -/
+def userMsg (s : Nat) (ordered : Bool) (v : Bool × Bytes) : SMsg :=
+  { sid := s, ppid := (encodeUser v.1 v.2).1, data := (encodeUser v.1 v.2).2, ordered := ordered }
+
+/-- What the application sees of a message handed to `_receive`: `(is str, payload)` or nothing. -/
+def appView (m : Msg) : Option (Bool × Bytes) := decodeUser m.ppid m.data
+
+/-- Decoding what a list of `send()` calls put on a stream gives back the values and their types. -/
+theorem appView_userMsgs (s : Nat) (ordered : Bool) (vs : List (Bool × Bytes))
+    (h : ∀ v ∈ vs, v.1 = true → utf8Valid v.2 = true) :
+    ((vs.map (userMsg s ordered)).map SMsg.toMsg).filterMap appView = vs := by
+  induction vs with
+  | nil => rfl
+  | cons v t ih =>
+    have hv := ppid_roundtrip v.1 v.2 (h v (by simp))
+    have := ih (fun x hx => h x (by simp [hx]))
+    simp only [List.map_cons, List.filterMap_cons]
+    have e : appView (userMsg s ordered v).toMsg = some v := hv
+    rw [e, this]
+
+/-- Application level, ordered channel: the `message` events (value AND type) seen on stream `s` are, for every
+arrival list, a prefix of the values passed to `send()` on that stream — DCEP control messages (PPID 50), which
+share the stream, are invisible on both sides. -/
+theorem C01_app_ordered (t0 : Int) (ms : List SMsg) (hN : (allFrags t0 ms).length < 2147483648)
+    (arr : List (Nat × Nat)) (hv : ∀ q ∈ arr, ValidFrag ms q) (hw : SsnWin t0 ms arr)
+    (r : Recv) (out : List Msg) (hrun : Recv.run (Recv.init t0) (arr.map (F t0 ms)) = .ok (r, out))
+    (s : Nat) (ho : OrdOnly ms s) :
+    (out.filter (fun m => m.sid == s)).filterMap appView <+: (sentOn ms s).filterMap appView :=
+  List.IsPrefix.filterMap appView (C01_ordered t0 ms hN arr hv hw r out hrun s ho)
+
+example : ((([(true, []), (false, []), (true, [0xC3, 0xA9]), (false, [0, 255])] : List (Bool × Bytes)).map
+    (userMsg 3 true)).map SMsg.toMsg).filterMap appView
+      = [(true, []), (false, []), (true, [0xC3, 0xA9]), (false, [0, 255])] := by decide
+
+/-- The SSN window hypothesis cannot be dropped: with the expected SSN at 0, an ordered message 2^15 ahead is
+"not greater" in 16-bit serial arithmetic and is delivered at once, out of order (as in RFC 4960). -/
+example :
+    (match Recv.run (Recv.init 10)
+        [ { tsn := 40000, sid := 1, ssn := 32768, ppid := 53, flags := 3, data := [1] } ] with
+      | .ok (_, out) => out.length
+      | _ => 0) = 1 := by decide
+
+example : decodeUser (encodeUser true []).1 (encodeUser true []).2 = some (true, []) := by decide
+example : decodeUser (encodeUser false []).1 (encodeUser false []).2 = some (false, []) := by decide
+example : decodeUser (encodeUser true [0xC3, 0xA9]).1 (encodeUser true [0xC3, 0xA9]).2 = some (true, [0xC3, 0xA9]) := by
+  decide
+
 end Aiortc.Props.C01
